@@ -247,7 +247,11 @@ def materialise(root, v, mode, sp, frag_ref):
         ref = None
         if i < n:
             segs = ref_segments(v, i)
-            ref = "/".join(sp.get(x, x) for x in segs)
+            if segs[0] == "/":
+                target = os.path.join(root, *[sp[x] for x in segs[1:]])
+                ref = target if v["shape"][i - 1] == "abs" else "file://" + urllib.request.pathname2url(target)
+            else:
+                ref = "/".join(sp.get(x, x) for x in segs)
             if v["frag"] == i + 1:
                 ref += "#frag"
         if mode == "config":
@@ -285,6 +289,8 @@ def ref_segments(v, i):
         c += 1
     rel = [".."] * (len(a) - c) + b[c:] + ["r%d" % (i + 1)]
     sh = v["shape"][i - 1]
+    if sh in ("abs", "url"):
+        return ["/"] + b + ["r%d" % (i + 1)]
     if sh == "rel":
         return rel
     if sh == "dot":
@@ -407,10 +413,11 @@ def part_b(chk, quick):
     root = tempfile.mkdtemp(prefix="zcv-c18-", dir=shm) if shm else tlc.mkscratch("zcv-c18-")
     _W.update(root=root, seed=chk.seed)
     try:
-        for chain, frags in ((("{1, 2}", "{0, 1, 2}"), ("{3}", "{0, 3}")) if quick else
-                             (("{1, 2}", "{0, 1, 2}"), ("{3}", "{0, 1, 2, 3}"))):
+        plans = ([("{1, 2}", "{0, 1, 2}", "MCCwds"), ("{3}", "{0, 3}", "MCCwds2")] if quick else
+                 [("{1, 2}", "{0, 1, 2}", "MCCwds"), ("{3}", "{0, 1, 2, 3}", "MCCwds")])
+        for chain, frags, cwds in plans:
             cfg = flow.cfg_text(spec="LSpec", constants={"Chain": chain, "Frags": frags},
-                                overrides={"Dirs": "MCDirs", "Cwds": "MCCwds", "Shapes": "MCShapes",
+                                overrides={"Dirs": "MCDirs", "Cwds": cwds, "Shapes": "MCShapes",
                                            "Kinds": "MCKinds"},
                                 invariants=["ReachesIntended", "RefAlgebra", "RefusedOnlyForFragment", "Emit"])
             flow.run_g(chk, mod, cfg, replay_b, nontrivial=nontrivial_b, sample_every=20011, workers=8,
@@ -423,8 +430,8 @@ def run(chk):
     quick = chk.tier == "quick"
     chk.rule = ("A: every string up to the bound over {a C : / \\ # . f i l e} (G) and enumerated / file:-prefixed / "
                 "random strings with urllib's answers (V), non-trivial = non-empty string; B: every chain of 1..3 "
-                "resources over the four directories of a three-level tree x 4 reference shapes per link x 5 entry "
-                "points x 5 working directories (one outside the tree) x fragment position, each run as a "
+                "resources over the four directories of a three-level tree x 6 reference shapes per link (relative in four spellings, absolute path, file: URL) x 5 entry "
+                "points x 5 working directories (one outside the tree; quick: 2 for chains of three) x fragment position, each run as a "
                 "configuration (%include) and as a schema (extends, import src) with seeded spellings over the "
                 "property's file-name alphabet; non-trivial = more than one resource or a non-absolute entry")
     part_a(chk, quick)
